@@ -130,6 +130,10 @@ func (w *World) verifyFunction(fn *ssa.Function, ct *Contract, props []string) (
 	cx := c.obligeNamed("cover.exit", "cover", w.Fset.Position(fn.Pos()), "some return is reachable", exitGuard, tTrue)
 	cx.Cover = true
 	for i, en := range ct.Ensures {
+		if en.Assumed {
+			c.trust(fmt.Sprintf("%s: postcondition %q is an assumption about a dependency (assumed-ensures), not proved from the body", name, en.Text))
+			continue
+		}
 		g := ex.evalBool(post, en)
 		nm := fmt.Sprintf("post.%d", i+1)
 		if en.Name != "" {
